@@ -146,9 +146,15 @@ def calltree_experiment(fn, settings, grouping, seed):
     """fn(x, collection=..., **settings) on the real code, wrapped; grouping: group id per block of 20 rows"""
     import ibldsp.voltage as V
     rng = np.random.default_rng(seed)
-    blk = 20
-    col = np.repeat(np.array(grouping), blk) if grouping else None
-    nc = blk * max(len(grouping), 3)
+    # rows per block: all 20 (even groups), all odd, or unequal sizes of both parities (a median over an odd / even number of
+    # channels, groups of different sizes)
+    nblk = max(len(grouping), 3)
+    mode = seed % 4
+    lo = 5 if fn == "car" else 19            # the spatial Butterworth filters need more rows than their edge padding (<= 15)
+    sizes = ([20] * nblk if mode == 0 else [19] * nblk if mode == 1 else [int(v) for v in rng.integers(lo, lo + 9, nblk)] if mode == 2
+             else [int(v) for v in 2 * rng.integers(lo // 2, lo // 2 + 5, nblk) + 1])
+    col = np.repeat(np.array(grouping), sizes) if grouping else None
+    nc = int(sum(sizes))
     ns = 1024 if fn != "fk" else 256
     if fn == "kfilt" and settings["lagc"]:
         while not _even_fft(ns, int(round(settings["lagc"] / 2) * 2 + 1)):
